@@ -131,137 +131,145 @@ func ruleHolder(c *Ctx) []Ob {
 			}
 		}
 		for _, st := range offStores {
-			sites++
-			key := fn.Name() + ":holder"
-			root, fld := structFieldRoot(st.Val)
-			if root == nil || fld != "Offset" {
-				s.undec(key+":own-field", c.InstrPos(st), "the holder offset is not the Offset of a reflect.StructField ("+path(st.Val)+"): cannot tell which struct it is relative to")
-				continue
-			}
-			conds := domConds(st.Block())
-			// (1) own field
-			ownGuard := false
-			for _, cd := range conds {
-				bo, ok := cd.V.(*ssa.BinOp)
-				if !ok {
+			for _, src := range valueSources(st.Val, 0) {
+				if z, isC := constInt(stripConv(src.v)); isC && z == 0 {
+					continue // the "no holder" value of a merged result
+				}
+				sites++
+				key := fn.Name() + ":holder"
+				root, fld := structFieldRoot(src.v)
+				if root == nil || fld != "Offset" {
+					s.undec(key+":own-field", c.InstrPos(st), "the holder offset is not the Offset of a reflect.StructField ("+path(src.v)+"): cannot tell which struct it is relative to")
 					continue
 				}
-				for _, pr := range [][2]ssa.Value{{bo.X, bo.Y}, {bo.Y, bo.X}} {
-					n, isC := constInt(stripConv(pr[1]))
-					call, isCall := stripConv(pr[0]).(*ssa.Call)
-					if !isC || !isCall {
-						continue
-					}
-					bi, isB := call.Call.Value.(*ssa.Builtin)
-					if !isB || bi.Name() != "len" || len(call.Call.Args) != 1 {
-						continue
-					}
-					r2, f2 := structFieldRoot(call.Call.Args[0])
-					if r2 != root || f2 != "Index" {
-						continue
-					}
-					switch {
-					case n == 1 && (bo.Op == token.EQL && cd.Truth || bo.Op == token.NEQ && !cd.Truth):
-						ownGuard = true
-					case n == 1 && (bo.Op == token.GTR && !cd.Truth && pr[0] == bo.X || bo.Op == token.LEQ && cd.Truth && pr[0] == bo.X):
-						ownGuard = true // len <= 1; an index path is never empty
-					case n == 2 && (bo.Op == token.LSS && cd.Truth && pr[0] == bo.X || bo.Op == token.GEQ && !cd.Truth && pr[0] == bo.X):
-						ownGuard = true
-					}
+				conds := append(append([]Cond{}, src.conds...), domConds(st.Block())...)
+				if ins, ok := src.v.(ssa.Instruction); ok && ins.Block() != nil {
+					conds = append(conds, domConds(ins.Block())...)
 				}
-			}
-			var byName, own, other []string
-			for _, src := range structFieldSources(root) {
-				switch n := calleeName(src); n {
-				case "Field":
-					own = append(own, n)
-				case "FieldByName", "FieldByNameFunc":
-					byName = append(byName, n)
-				default:
-					other = append(other, path(src))
-				}
-			}
-			switch {
-			case len(other) > 0 && !ownGuard:
-				s.undec(key+":own-field", c.InstrPos(st), fmt.Sprintf("the holder's StructField comes from %v: cannot tell whether its Offset is relative to the struct being described", other))
-			case len(byName) > 0 && !ownGuard:
-				s.bad(key+":own-field", c.InstrPos(st), fmt.Sprintf("the holder is found with %s, which also returns a field promoted from an embedded struct, and its Offset (relative to the embedded struct that declares it) is used as an offset into the outer struct without a `len(f.Index) == 1` test: decode writes the []byte header over other fields of the outer struct, encode and size read it from there", byName[0]))
-			default:
-				s.ok(key+":own-field", c.InstrPos(st), "the offset is that of the struct's own field (Field(i), or a lookup by name used under len(Index) == 1)")
-			}
-			// (2) the field is a slice of bytes: Kind() == Slice on its type and Elem().Kind() == Uint8
-			slice, u8 := false, false
-			for _, cd := range conds {
-				bo, ok := cd.V.(*ssa.BinOp)
-				if !ok || !(bo.Op == token.EQL && cd.Truth || bo.Op == token.NEQ && !cd.Truth) {
-					continue
-				}
-				for _, pr := range [][2]ssa.Value{{bo.X, bo.Y}, {bo.Y, bo.X}} {
-					n, isC := constInt(stripConv(pr[1]))
-					call, isCall := stripConv(pr[0]).(*ssa.Call)
-					if !isC || !isCall || calleeName(call) != "Kind" {
+				// (1) own field
+				ownGuard := false
+				for _, cd := range conds {
+					bo, ok := cd.V.(*ssa.BinOp)
+					if !ok {
 						continue
 					}
-					var recv ssa.Value
-					if call.Call.IsInvoke() {
-						recv = call.Call.Value
-					} else if len(call.Call.Args) > 0 {
-						recv = call.Call.Args[0]
-					}
-					if recv == nil {
-						continue
-					}
-					if r2, f2 := structFieldRoot(recv); r2 == root && f2 == "Type" && n == int64(reflect.Slice) {
-						slice = true
-					}
-					if ec, ok := stripConv(recv).(*ssa.Call); ok && calleeName(ec) == "Elem" {
-						var er ssa.Value
-						if ec.Call.IsInvoke() {
-							er = ec.Call.Value
-						} else if len(ec.Call.Args) > 0 {
-							er = ec.Call.Args[0]
+					for _, pr := range [][2]ssa.Value{{bo.X, bo.Y}, {bo.Y, bo.X}} {
+						n, isC := constInt(stripConv(pr[1]))
+						call, isCall := stripConv(pr[0]).(*ssa.Call)
+						if !isC || !isCall {
+							continue
 						}
-						if er != nil {
-							if r2, f2 := structFieldRoot(er); r2 == root && f2 == "Type" && n == int64(reflect.Uint8) {
-								u8 = true
+						bi, isB := call.Call.Value.(*ssa.Builtin)
+						if !isB || bi.Name() != "len" || len(call.Call.Args) != 1 {
+							continue
+						}
+						r2, f2 := structFieldRoot(call.Call.Args[0])
+						if r2 != root || f2 != "Index" {
+							continue
+						}
+						switch {
+						case n == 1 && (bo.Op == token.EQL && cd.Truth || bo.Op == token.NEQ && !cd.Truth):
+							ownGuard = true
+						case n == 1 && (bo.Op == token.GTR && !cd.Truth && pr[0] == bo.X || bo.Op == token.LEQ && cd.Truth && pr[0] == bo.X):
+							ownGuard = true // len <= 1; an index path is never empty
+						case n == 2 && (bo.Op == token.LSS && cd.Truth && pr[0] == bo.X || bo.Op == token.GEQ && !cd.Truth && pr[0] == bo.X):
+							ownGuard = true
+						}
+					}
+				}
+				var byName, own, other []string
+				for _, src := range structFieldSources(root) {
+					switch n := calleeName(src); n {
+					case "Field":
+						own = append(own, n)
+					case "FieldByName", "FieldByNameFunc":
+						byName = append(byName, n)
+					default:
+						other = append(other, path(src))
+					}
+				}
+				switch {
+				case len(other) > 0 && !ownGuard:
+					s.undec(key+":own-field", c.InstrPos(st), fmt.Sprintf("the holder's StructField comes from %v: cannot tell whether its Offset is relative to the struct being described", other))
+				case len(byName) > 0 && !ownGuard:
+					s.bad(key+":own-field", c.InstrPos(st), fmt.Sprintf("the holder is found with %s, which also returns a field promoted from an embedded struct, and its Offset (relative to the embedded struct that declares it) is used as an offset into the outer struct without a `len(f.Index) == 1` test: decode writes the []byte header over other fields of the outer struct, encode and size read it from there", byName[0]))
+				default:
+					s.ok(key+":own-field", c.InstrPos(st), "the offset is that of the struct's own field (Field(i), or a lookup by name used under len(Index) == 1)")
+				}
+				// (2) the field is a slice of bytes: Kind() == Slice on its type and Elem().Kind() == Uint8
+				slice, u8 := false, false
+				for _, cd := range conds {
+					bo, ok := cd.V.(*ssa.BinOp)
+					if !ok || !(bo.Op == token.EQL && cd.Truth || bo.Op == token.NEQ && !cd.Truth) {
+						continue
+					}
+					for _, pr := range [][2]ssa.Value{{bo.X, bo.Y}, {bo.Y, bo.X}} {
+						n, isC := constInt(stripConv(pr[1]))
+						call, isCall := stripConv(pr[0]).(*ssa.Call)
+						if !isC || !isCall || calleeName(call) != "Kind" {
+							continue
+						}
+						var recv ssa.Value
+						if call.Call.IsInvoke() {
+							recv = call.Call.Value
+						} else if len(call.Call.Args) > 0 {
+							recv = call.Call.Args[0]
+						}
+						if recv == nil {
+							continue
+						}
+						if r2, f2 := structFieldRoot(recv); r2 == root && f2 == "Type" && n == int64(reflect.Slice) {
+							slice = true
+						}
+						if ec, ok := stripConv(recv).(*ssa.Call); ok && calleeName(ec) == "Elem" {
+							var er ssa.Value
+							if ec.Call.IsInvoke() {
+								er = ec.Call.Value
+							} else if len(ec.Call.Args) > 0 {
+								er = ec.Call.Args[0]
+							}
+							if er != nil {
+								if r2, f2 := structFieldRoot(er); r2 == root && f2 == "Type" && n == int64(reflect.Uint8) {
+									u8 = true
+								}
 							}
 						}
 					}
 				}
-			}
-			s.check(slice && u8, key+":byte-slice", c.InstrPos(st), "the holder's type is tested to be a slice of uint8 before the offset is recorded",
-				fmt.Sprintf("the holder offset is recorded without the tests Type.Kind() == Slice (%v) and Type.Elem().Kind() == Uint8 (%v): a three-word []byte header is written over whatever the field is", slice, u8))
-			// (3) the name
-			named := false
-			for _, src := range structFieldSources(root) {
-				if call, ok := src.(*ssa.Call); ok {
-					for _, a := range call.Call.Args {
-						if sv, ok := strConst(a); ok && sv == "_unknownFields" {
-							named = true
-						}
-					}
-				}
-			}
-			for _, cd := range conds {
-				if bo, ok := cd.V.(*ssa.BinOp); ok && (bo.Op == token.EQL && cd.Truth || bo.Op == token.NEQ && !cd.Truth) {
-					for _, pr := range [][2]ssa.Value{{bo.X, bo.Y}, {bo.Y, bo.X}} {
-						if sv, ok := strConst(pr[1]); ok && sv == "_unknownFields" {
-							if r2, f2 := structFieldRoot(pr[0]); r2 == root && f2 == "Name" {
+				s.check(slice && u8, key+":byte-slice", c.InstrPos(st), "the holder's type is tested to be a slice of uint8 before the offset is recorded",
+					fmt.Sprintf("the holder offset is recorded without the tests Type.Kind() == Slice (%v) and Type.Elem().Kind() == Uint8 (%v): a three-word []byte header is written over whatever the field is", slice, u8))
+				// (3) the name
+				named := false
+				for _, src := range structFieldSources(root) {
+					if call, ok := src.(*ssa.Call); ok {
+						for _, a := range call.Call.Args {
+							if sv, ok := strConst(a); ok && sv == "_unknownFields" {
 								named = true
 							}
 						}
 					}
 				}
-			}
-			s.check(named, key+":name", c.InstrPos(st), "the holder is the field named _unknownFields", "the field taken as the holder is not selected by the name _unknownFields")
-			// (4) the flag is set with the offset
-			paired := false
-			for _, fs := range flagStores {
-				if fs.Block() == st.Block() {
-					paired = true
+				for _, cd := range conds {
+					if bo, ok := cd.V.(*ssa.BinOp); ok && (bo.Op == token.EQL && cd.Truth || bo.Op == token.NEQ && !cd.Truth) {
+						for _, pr := range [][2]ssa.Value{{bo.X, bo.Y}, {bo.Y, bo.X}} {
+							if sv, ok := strConst(pr[1]); ok && sv == "_unknownFields" {
+								if r2, f2 := structFieldRoot(pr[0]); r2 == root && f2 == "Name" {
+									named = true
+								}
+							}
+						}
+					}
 				}
+				s.check(named, key+":name", c.InstrPos(st), "the holder is the field named _unknownFields", "the field taken as the holder is not selected by the name _unknownFields")
+				// (4) the flag is set with the offset
+				paired := false
+				for _, fs := range flagStores {
+					if fs.Block() == st.Block() {
+						paired = true
+					}
+				}
+				s.check(paired, key+":flag", c.InstrPos(st), "hasUnknownFields is set in the block that records the offset", "the offset is recorded where hasUnknownFields is not set")
 			}
-			s.check(paired, key+":flag", c.InstrPos(st), "hasUnknownFields is set in the block that records the offset", "the offset is recorded where hasUnknownFields is not set")
 		}
 		for _, fs := range flagStores {
 			paired := false
@@ -341,8 +349,32 @@ func fromKeywordTab(v ssa.Value, d int) bool {
 				}
 			}
 		}
+		if isKeywordSource(x.Call.StaticCallee()) {
+			return true
+		}
 	}
 	return false
+}
+
+// isKeywordSource: the keyword table written as a function: func(Tag) string whose every return is a string constant.
+func isKeywordSource(f *ssa.Function) bool {
+	if f == nil || f.Blocks == nil || fnPkgPath(f) != pkgDefs || len(f.Params) != 1 || namedOf(f.Params[0].Type()) != "Tag" ||
+		f.Signature.Results().Len() != 1 || !isStringType(f.Signature.Results().At(0).Type().Underlying()) {
+		return false
+	}
+	n := 0
+	for _, b := range f.Blocks {
+		if ret, ok := b.Instrs[len(b.Instrs)-1].(*ssa.Return); ok && b != f.Recover {
+			if len(ret.Results) != 1 {
+				return false
+			}
+			if _, isC := ret.Results[0].(*ssa.Const); !isC {
+				return false
+			}
+			n++
+		}
+	}
+	return n >= 2
 }
 
 func ruleKeywordWords(c *Ctx) []Ob {
@@ -352,7 +384,13 @@ func ruleKeywordWords(c *Ctx) []Ob {
 		s.bad("keywords", "-", "package defs not found")
 		return s.obs
 	}
-	if _, ok := sp.Members["keywordTab"].(*ssa.Global); !ok {
+	hasSourceFn := false
+	for _, m := range sp.Members {
+		if f, ok := m.(*ssa.Function); ok && isKeywordSource(f) {
+			hasSourceFn = true
+		}
+	}
+	if _, ok := sp.Members["keywordTab"].(*ssa.Global); !ok && !hasSourceFn {
 		s.ok("keywords", "-", "no keyword table in this tree: the keyword dispatch is decided by R.refusals (kind rows); nothing to hold against a table")
 		return s.obs
 	}
